@@ -111,13 +111,13 @@ def has_mod(c, role):
 def instantiate(ctx, cases):
     """Choose concrete jq filters for the abstract option "jqFilter is set" and the cases that go through a real hook
     process. quick: one filter pair per case, rotating through the catalogue (offset by the seed); thorough: every
-    case with three filter pairs, so every filter meets every context shape many times.  Where the case modifies an
+    case with two filter pairs, so every filter meets every context shape many times.  Where the case modifies an
     object of a binding, three of four instances use an object-valued filter for that binding: with finding F12 open
     the informer does not see a change of a result that is not an object, and the case could not be steered."""
     out = []
     n = len(CATALOGUE)
     objs = [f for f, _ in CATALOGUE if f in OBJECT_VALUED]
-    reps = ctx.pick(1, 3)
+    reps = ctx.pick(1, 2)
     file_every = ctx.pick(23, 11)
     for i, c in enumerate(cases):
         for rep in range(reps):
@@ -137,8 +137,8 @@ def instantiate(ctx, cases):
     return out
 
 
-def run_cases(ctx, binary, cases):
-    shards = ctx.pick(4, 8)
+def run_cases(ctx, binary, cases, shards=None):
+    shards = shards or ctx.pick(4, 8)
     parts = [cases[i::shards] for i in range(shards)]
     results = [None] * shards
     errors = []
@@ -229,6 +229,12 @@ def check_c09(ctx):
     binary, abstract = box["bin"], box["cases"]
     cases = instantiate(ctx, abstract)
     results = run_cases(ctx, binary, cases)
+    # a case the harness could not execute (child killed from outside, a stalled machine) gets one more chance, alone
+    again = [i for i, r in enumerate(results) if r.get("sig", "").startswith("INFRA/")]
+    if again and len(again) <= max(20, len(cases) // 50):
+        ctx.log("re-running %d case(s) the harness could not execute: %s" % (len(again), sorted({results[i]["sig"] for i in again})))
+        for i, r in zip(again, run_cases(ctx, binary, [cases[i] for i in again], shards=1)):
+            results[i] = r
 
     unsteer, unsteer_obj, diverge, infra = 0, [], 0, []
     items = filters = via_file = executed = 0
